@@ -1,7 +1,12 @@
 import SdbModel.Model.Table
+import SdbModel.Model.TableWatch
 import Driver.Util
 /-! driver suite `table` (C01–C04, C06–C09, C19): statedb.DB / tables / queries /
-    change iterators / graveyard / initializers vs Model.Table -/
+    change iterators / graveyard / initializers vs Model.Table; the watch channels of the
+    table queries vs Model.TableWatch, which runs alongside on the same operations
+    (product state): the watch variants print, after the result, the canonical name of the
+    channel handed out (w1, w2, ... in order of first appearance) and whether it is closed;
+    `closed` prints the sorted names of all closed channels handed out so far -/
 namespace Drv.TableS
 open Sdb Sdb.Tbl
 
@@ -10,6 +15,10 @@ structure S where
   snaps : Array (List TableS) := #[]
   dones : Array (Nat × String) := #[]      -- registered initializers (table, name)
   kept : Array String := #[]              -- results of queries whose sequence is iterated later
+  tw : TW.DB := {}                         -- Model.TableWatch, driven by the same operations
+  twSnaps : Array (List TW.View) := #[]    -- what each retained snapshot sees of the index trees
+  names : List ((Nat × Nat × Nat) × Nat) := []   -- (table, index, channel) ↦ canonical number
+  nextName : Nat := 1
   deriving Inhabited
 
 def tableIdx : String → Option Nat
@@ -103,7 +112,7 @@ def stripW (op : String) : String :=
   | "getw" => "get" | "listw" => "list" | "prefixw" => "prefix" | "lbw" => "lb" | "allw" => "all"
   | o => o
 
-def step (s : S) (ws0 : List String) : S × String :=
+def stepCore (s : S) (ws0 : List String) : S × String :=
   let ws := match ws0 with | op :: rest => stripW op :: rest | [] => []
   match ws with
   | ["wtxn", tabs] =>
@@ -348,5 +357,143 @@ def step (s : S) (ws0 : List String) : S × String :=
     if s.db.gcPaused then ({ s with db := { (gcApply s.db s.db.gcDead) with gcDead := [], gcPaused := false } }, "ok")
     else (s, "ok")
   | _ => (s, "bad-op")
+
+/-! ### Model.TableWatch alongside -/
+
+def S.name (s : S) (k : Nat × Nat × Nat) : S × String :=
+  if k.2.2 = 0 then (s, "nil") else
+  match s.names.find? (·.1 = k) with
+  | some (_, n) => (s, s!"w{n}")
+  | none => ({ s with names := (k, s.nextName) :: s.names, nextName := s.nextName + 1 }, s!"w{s.nextName}")
+
+def S.chanClosed (s : S) (k : Nat × Nat × Nat) : Bool := (s.tw.tab k.1).isClosed k.2.1 k.2.2
+
+/-- name + state of a channel handed out -/
+def S.showChan (s : S) (ti : Nat) (c : Nat × Nat) : S × String :=
+  let k := (ti, c.1, c.2)
+  let (s, n) := s.name k
+  (s, if c.2 = 0 then n else s!"{n} {if s.chanClosed k then "closed" else "open"}")
+
+def parseKind : String → Option TW.QKind
+  | "get" => some .get | "list" => some .list | "prefix" => some .prefix | "lb" => some .lb | "all" => some .all
+  | _ => none
+
+def isWatchOp (op : String) : Bool := op == "getw" || op == "listw" || op == "prefixw" || op == "lbw" || op == "allw"
+
+def twViews (s : S) : List TW.View := s.tw.root.map (·.view)
+
+/-- the view a handle gives of table `ti` (after the reads of the query went through the write txn) -/
+def twHandle (s : S) (h : String) (ti : Nat) : Option TW.View :=
+  if h == "w" then s.tw.wtxn.map fun ws => (ws.getD ti default).view
+  else if h == "-" then some (s.tw.tab ti).view
+  else match h.toList with
+    | 's' :: rest => ((String.ofList rest).toNat? >>= (s.twSnaps[·]?)).map fun vs => vs.getD ti default
+    | _ => none
+
+/-- a query: reads through the write transaction bump the index transaction; the watch variants
+    report the channel -/
+def twQuery (s : S) (op h tn : String) (ix : Idx) (key : Key) : S × String :=
+  match tableIdx tn, parseKind (stripW op) with
+  | some ti, some k =>
+    let s := if h == "w" then { s with tw := s.tw.write ti (TW.readOps ix k) } else s
+    if isWatchOp op then
+      match twHandle s h ti with
+      | some v =>
+        let (s, c) := s.showChan ti (v.chan ix k key)
+        (s, " # " ++ c)
+      | none => (s, "")
+    else (s, "")
+  | _, _ => (s, "")
+
+/-- the TableWatch half of one operation, computed on the state BEFORE the operation: new state and
+    the text appended to the observation -/
+def twStep (s : S) (ws : List String) : S × String :=
+  match ws with
+  | ["wtxn", tabs] =>
+    if s.db.wtxn.isSome then (s, "") else
+    ({ s with tw := s.tw.beginW (tabs.toList.contains 'm') (tabs.toList.contains 'a') }, "")
+  | ["commit"] =>
+    match s.db.wtxn with
+    | some _ => let tw := s.tw.commit; ({ s with tw, twSnaps := s.twSnaps.push (tw.root.map (·.view)) }, "")
+    | none => (s, "")
+  | ["abort"] => ({ s with tw := s.tw.abort }, "")
+  | ["rtxn"] => ({ s with twSnaps := s.twSnaps.push (twViews s) }, "")
+  | [op, h, tn, ix, k] =>
+    match parseKind (stripW op), parseIdx ix with
+    | some _, some ix =>
+      match parseQKey ix k with
+      | some (key, _) => twQuery s op h tn ix key
+      | none => (s, "")
+    | _, _ => (s, "")
+  | [op, h, tn] =>
+    if op == "all" || op == "allw" then twQuery s op h tn .id [] else
+    match tableIdx h, s.db.wtxn, op with
+    | some ti, some es, "del" =>
+      match parseKey tn with
+      | some id => ({ s with tw := s.tw.write ti (TW.deleteOps (getT es ti) 0 id) }, "")
+      | none => (s, "")
+    | _, _, _ => (s, "")
+  | op :: tn :: rest =>
+    match tableIdx tn, s.db.wtxn with
+    | some ti, some es =>
+      let t := getT es ti
+      match op with
+      | "side" =>
+        match parseObj rest with
+        | some o =>
+          if t.locked || s.db.gcPaused then (s, "") else
+          -- the second transaction starts from the COMMITTED table, not from the open one's view
+          ({ s with tw := s.tw.side ti (TW.modifyOps { getT s.db.root ti with locked := true } 0 o false) }, "")
+        | none => (s, "")
+      | "ins" | "mod" =>
+        match parseObj rest with
+        | some o => ({ s with tw := s.tw.write ti (TW.modifyOps t 0 o (op == "mod")) }, "")
+        | none => (s, "")
+      | "insw" =>
+        match parseObj rest with
+        | some o =>
+          let w := ((s.tw.wtxn.getD []).getD ti default).insWatch (s.tw.tab ti) t o
+          let s := { s with tw := s.tw.write ti (TW.modifyOps t 0 o false) }
+          let (s, c) := s.showChan ti (0, w)
+          (s, " # " ++ c)
+        | none => (s, "")
+      | "cas" =>
+        match rest with
+        | spec :: orest =>
+          match parseObj orest with
+          | some o => ({ s with tw := s.tw.write ti (TW.modifyOps t (resolveRev t o.id spec) o false) }, "")
+          | none => (s, "")
+        | _ => (s, "")
+      | "cad" =>
+        match rest with
+        | [spec, id] =>
+          match parseKey id with
+          | some id => ({ s with tw := s.tw.write ti (TW.deleteOps t (resolveRev t id spec) id) }, "")
+          | none => (s, "")
+        | _ => (s, "")
+      | _ => (s, "")
+    | _, _ => (s, "")
+  | _ => (s, "")
+
+def closedNames (s : S) : String :=
+  let cl := s.names.filter fun (k, _) => s.chanClosed k
+  let ns := (cl.map (·.2)).toArray.qsort (· < ·)
+  if ns.isEmpty then "." else " ".intercalate (ns.toList.map fun n => s!"w{n}")
+
+def step (s : S) (ws : List String) : S × String :=
+  match ws with
+  | ["closed"] => (s, closedNames s)
+  | ["delall", tn] =>
+    match tableIdx tn, s.db.wtxn with
+    | some ti, some es =>
+      let tw := s.tw.write ti (TW.deleteAllOps (getT es ti))
+      let (s1, out) := stepCore s ws
+      ({ s1 with tw }, out)
+    | _, _ => stepCore s ws
+  | _ =>
+    let (s2, suffix) := twStep s ws
+    let (s1, out) := stepCore s ws
+    if out == "bad-op" then (s1, out)
+    else ({ s1 with tw := s2.tw, twSnaps := s2.twSnaps, names := s2.names, nextName := s2.nextName }, out ++ suffix)
 
 end Drv.TableS
